@@ -43,6 +43,11 @@ WRITE_PROBES = [
     ("tables-nodir", lambda g: ["--tables-file=" + g + "/nonexistent/s.tbl", "-o", g + "/s.c"], True),
     ("backup-ok", lambda g: ["-b", "-o", g + "/s.c"], False),
     ("backup-unwritable", lambda g: ["-b", "-o", g + "/s.c"], True),   # lex.backup exists as a directory in the working directory
+    # a process of the output filter chain dies: m4 killed by a signal, m4 failing silently, file size limit hit while the scanner is written
+    ("m4-killed", lambda g: ["-o", g + "/s.c"], True),
+    ("m4-fails", lambda g: ["-o", g + "/s.c"], True),
+    ("filesize-limit", lambda g: ["-o", g + "/s.c"], True),
+    ("filesize-limit-header", lambda g: ["--header-file=" + g + "/s.h", "-o", g + "/s.c"], True),
     ("all-ok", lambda g: ["-b", "--header-file=" + g + "/s.h", "--tables-file=" + g + "/s.tbl", "-o", g + "/s.c"], False),
 ]
 
@@ -62,10 +67,19 @@ def write_probe(job):
     if name == "backup-unwritable":
         os.makedirs(os.path.join(wd, "lex.backup"), exist_ok=True)
     cmd = [_FLEX] + extra_opts + args + ["s.l"]
-    if name == "stdout-devfull":
+    env = dict(ENV)
+    if name in ("m4-killed", "m4-fails"):
+        sh = os.path.join(wd, "m4.sh")
+        with open(sh, "w") as f:
+            f.write("#!/bin/sh\ncat > /dev/null\n" + ("kill -9 $$\n" if name == "m4-killed" else "exit 3\n"))
+        os.chmod(sh, 0o755)
+        env["M4"] = sh
+    if name.startswith("filesize-limit"):
+        rc, out, err = run(["sh", "-c", "ulimit -f 8; exec \"$0\" \"$@\"", *cmd], cwd=wd, timeout=60, env=env)
+    elif name == "stdout-devfull":
         rc, out, err = run(["sh", "-c", "exec \"$0\" \"$@\" > /dev/full", *cmd], cwd=wd, timeout=60, env=ENV)
     else:
-        rc, out, err = run(cmd, cwd=wd, timeout=60, env=ENV)
+        rc, out, err = run(cmd, cwd=wd, timeout=60, env=env)
     errs = err.decode(errors="replace")
     problems = []
     rep = re.search(r"(ERROR: AddressSanitizer: [^\n]*|runtime error: [^\n]*)", errs)
@@ -320,6 +334,8 @@ def main(tier):
                 key = "write:%s:%s" % (r['name'], "status0" if "exit status 0" in p else hashlib.sha256(p.encode()).hexdigest()[:6])
                 if r['name'] == "header-nodir" and "killed by signal" in p:
                     key = "header-unwritable-sigpipe"
+                if r['name'] in ("filesize-limit", "filesize-limit-header", "m4-killed", "m4-fails") and "killed by signal 13" in p:
+                    key = "sigpipe-when-filter-process-dies"       # KNOWN_FINDINGS.json
                 ck.violation(key, "%s [flex %s %s]: %s" % (r['name'], " ".join(r['opts']), " ".join(r['args']), p),
                              {'spec': r['spec'], 'flex_args': r['opts'] + r['args'], 'stderr': r['stderr'],
                               'how': "flex <args> s.l in an empty directory (for backup-unwritable: mkdir lex.backup first; stdout-devfull: > /dev/full)"})
